@@ -158,6 +158,103 @@ def no_memoisation(ctx, model, prop, rule, prefixes, why):
         raise AnalysisError(f"no functions found under {prefixes}")
 
 
+_VIEW_FUNCS = {"asarray", "asanyarray", "atleast_1d", "ravel", "squeeze", "reshape", "transpose"}
+_VIEW_METHS = {"ravel", "reshape", "view", "squeeze", "transpose"}
+_INPLACE_METHS = {"sort", "fill", "put", "resize", "itemset", "partition"}
+_INPLACE_FUNCS = {"put", "copyto", "place", "putmask", "fill_diagonal"}
+
+
+def _inplace_on_parameters(fn):
+    """(line, construct) for every in-place write, inside the function definition `fn`, to a value that may be one of the function's own
+    arguments: may-alias closure over plain assignment, conditional expressions, slices / .T and the numpy calls that return their
+    argument or a view of it (numpy.asarray does not copy an array); writes = out=<alias>, <alias>[..] = / op=, <alias> op= (in place
+    for arrays), the in-place ndarray methods and numpy.put / copyto / place / putmask"""
+    import ast
+
+    def may(e, al):
+        if isinstance(e, ast.Name):
+            return e.id in al
+        if isinstance(e, ast.IfExp):
+            return may(e.body, al) or may(e.orelse, al)
+        if isinstance(e, ast.BoolOp):
+            return any(may(v, al) for v in e.values)
+        if isinstance(e, ast.Subscript):
+            return isinstance(e.slice, ast.Slice) and may(e.value, al)
+        if isinstance(e, ast.Attribute) and e.attr == "T":
+            return may(e.value, al)
+        if isinstance(e, ast.Call):
+            f = e.func
+            if isinstance(f, ast.Attribute) and f.attr in _VIEW_FUNCS and isinstance(f.value, ast.Name) and f.value.id in ("numpy", "np") and e.args:
+                return may(e.args[0], al)
+            if isinstance(f, ast.Attribute) and f.attr in _VIEW_METHS:
+                return may(f.value, al)
+        return False
+
+    def root(e):
+        while isinstance(e, ast.Subscript) or (isinstance(e, ast.Attribute) and e.attr in ("T", "flat")):
+            e = e.value
+        return e
+
+    al = {a.arg for a in fn.args.args + fn.args.kwonlyargs + fn.args.posonlyargs} - {"self", "cls"}
+    changed = True
+    while changed:
+        changed = False
+        for st in ast.walk(fn):
+            if isinstance(st, ast.Assign) and may(st.value, al):
+                for t in st.targets:
+                    if isinstance(t, ast.Name) and t.id not in al:
+                        al.add(t.id)
+                        changed = True
+    hits = []
+    for st in ast.walk(fn):
+        if isinstance(st, ast.Call):
+            for k in st.keywords:
+                if k.arg == "out" and may(k.value, al):
+                    hits.append((st.lineno, f"out={ast.unparse(k.value)}"))
+            f = st.func
+            if isinstance(f, ast.Attribute) and f.attr in _INPLACE_METHS and may(f.value, al):
+                hits.append((st.lineno, f"{ast.unparse(f)}()"))
+            if isinstance(f, ast.Attribute) and f.attr in _INPLACE_FUNCS and isinstance(f.value, ast.Name) and f.value.id in ("numpy", "np") \
+                    and st.args and may(st.args[0], al):
+                hits.append((st.lineno, f"{ast.unparse(f)}({ast.unparse(st.args[0])}, ...)"))
+        elif isinstance(st, ast.AugAssign):
+            r = root(st.target)
+            if isinstance(r, ast.Name) and r.id in al:
+                hits.append((st.lineno, f"{ast.unparse(st.target)} {type(st.op).__name__}="))
+        elif isinstance(st, ast.Assign):
+            for t in st.targets:
+                if isinstance(t, ast.Subscript):
+                    r = root(t)
+                    if isinstance(r, ast.Name) and r.id in al:
+                        hits.append((st.lineno, f"{ast.unparse(t)} ="))
+    return sorted(set(hits))
+
+
+def no_inplace_on_arguments(ctx, model, prop, rule, prefixes, why):
+    """no function of the given modules writes in place to a value that may be one of its own arguments: the numerical entry points
+    take arrays (and pass them through numpy.asarray, which returns the caller's array itself), so such a write changes the caller's
+    data - the request of the same call when a default aliases it, or the input of the next call"""
+    import ast
+    from .core import Finding, AnalysisError
+    # the rule expects zero matches: a tiny positive example must match on every run
+    probe = ast.parse("def f(x, y=None):\n    x = numpy.asarray(x)\n    if y is None:\n        y = x\n    numpy.clip(y, 0, 1, out=y)\n"
+                      "    z = x[1:]\n    z[0] = 1\n    w = x * 2\n    w[0] = 1\n    w += 1\n").body[0]
+    if [c for _, c in _inplace_on_parameters(probe)] != ["out=y", "z[0] ="]:
+        raise AnalysisError(f"in-place-on-arguments self-check failed: {_inplace_on_parameters(probe)}")
+    n = 0
+    for fi in model.all_functions():
+        if not any(fi.qualname.startswith(p) for p in prefixes):
+            continue
+        n += 1
+        for line, what in _inplace_on_parameters(fi.node):
+            ctx.ob(False, Finding(f"{prop}.{rule}", fi.where, f"{fi.short}|writes-argument|{what}",
+                                  f"{fi.short} (line {line}) writes in place to a value that may be the caller's own argument ({what}): {why}"))
+    ctx.ob(True, nontrivial_key=("inplace-scan", tuple(prefixes)))
+    ctx.analysed[f"functions scanned for in-place writes to their arguments ({', '.join(prefixes)})"] = n
+    if n == 0:
+        raise AnalysisError(f"no functions found under {prefixes}")
+
+
 def conversions_drop_caches(ctx, model, prop, rule):
     """every PointIsotherm.convert_* method that stores converted data resets both interpolator caches unconditionally afterwards"""
     from .core import Finding, AnalysisError
